@@ -7,7 +7,7 @@ PROPS = {
                      "check_one_checkfile / main (what --check counts and what the exit status is), over a ghost stdout "
                      "log, a file-system function and a line-source model; hash_path's real body is verified against a "
                      "model of blake3::Hasher whose clauses are the contracts C02/C03/C11 verify on the crate; "
-                     "write_raw_output and clap are assumed contracts (partial claim: see level_note)",
+                     "clap is an assumed contract; write_raw_output's body is verified over an assumed model of Read::take / io::copy (partial claim: see level_note)",
         "level_text": "unbounded deductive proof (Verus/z3) for the FUNCTION-LEVEL half of the statement, every line, path, "
                       "checkfile length and number of inputs: write_hex_output appends the lowercase hex of exactly "
                       "S[pos..pos+length] of the reader it is given (hash_one_input: of the reader hash_path positioned at "
@@ -22,8 +22,8 @@ PROPS = {
                       "the environment failed (argument parsing, key reading, pool construction, a read error)",
         "level_note": "PARTIAL: the process-level half of C12 (clap's argument grammar and conflicts, reading the key from "
                       "stdin, the real stdout / stderr, File::open / BufReader / stdin selection in check_one_checkfile, "
-                      "rayon_core's pool, --raw output) is NOT under contract: "
-                      "write_raw_output and clap (vf_parse_inner) are ASSUMED contracts, hash_path, Args::parse and read_key_from_stdin are verified over ASSUMED models of "
+                      "rayon_core's pool) is NOT under contract: "
+                      "clap (vf_parse_inner) is an ASSUMED contract, hash_path, Args::parse, read_key_from_stdin and write_raw_output are verified over ASSUMED models of "
                       "blake3::Hasher / File / stdin, the reader-selection prologue of "
                       "check_one_checkfile is replaced by a line-source model (its loop is the real code), the closure "
                       "passed to ThreadPool::install is verified as main's own block and process::exit(c) as `return` of "
@@ -55,7 +55,8 @@ PROPS = {
             "below hash_path: that blake3::Hasher / File / stdin behave as the b3sum-side model says is C02/C03/C10/C11 on the "
             "crate (verified there) plus the OS; the bounded exploration of the thorough tier runs the real binary over "
             "mode / seek / length combinations",
-            "--raw output (write_raw_output: io::copy of output.take(len) to stdout) - assumed, no claim about the bytes",
+            "--raw: write_raw_output (real body) appends exactly S[pos..pos+length] of the given reader to a raw stdout log and "
+            "hash_one_input passes it the reader of hash_path; Read::take and io::copy themselves are assumed models",
             "stdin as a checkfile, File::open errors, BufReader line splitting (a final line without terminator, CRLF) are "
             "behind the line-source model; stderr diagnostics (the WARNING summary, error texts) are not modelled",
             "with --check, an unreadable CHECKFILE ends the run with an error status immediately (the real code's `?`): "
@@ -91,6 +92,9 @@ PROPS = {
             "`thread_pool.install(|| BODY)` is resolved to `(BODY)` (install runs the closure and returns its result)",
             "`std::process::exit(c)` is resolved to `return vf_process_exit(c)` whose result is Ok iff c == 0: the process "
             "status is modelled by main's result (std: Err from main => status 1)",
+            "write_raw_output (VERIFIED body): ASSUMED below it OutputReader::take(limit) (a reader over the next `limit` bytes of "
+            "the same stream), std::io::stdout().lock() (vf_stdout_handle) and io::copy(&mut take, &mut lock) (writes exactly "
+            "those bytes: vf_copy_take_to_stdout, raw log of VfStdout)",
             "R21b: eprint!/eprintln! evaluate their arguments and write to stderr only (not modelled)",
             "R19h: `for p in &X` over a Vec field is an index loop in index order",
             "blake3::Hash == Hash is byte equality (vf_eq; verified on the real crate under C14); `\"\\\\\".to_string() + &s` is "
